@@ -19,6 +19,84 @@ DOC_PROGRAMS = [
       ["ret", ["call", ["v", "f"], [["i", "50"], ["i", "0"]], "-"]]]),
 ]
 
+BIN = {"add": "+", "sub": "-", "mul": "*", "quo": "/", "rem": "%", "and": "&", "or": "|", "xor": "^", "andnot": "&^", "shl": "<<", "shr": ">>",
+       "lt": "<", "le": "<=", "gt": ">", "ge": ">="}
+XLITS = [0, 1, 2, 3, 7, 5, 63, 64, 65, 2**62, 2**63 - 1]   # a negative literal is unary minus applied to a constant
+
+def gen_cexpr(rng, d, nloc):
+    """expression of the ExprComp fragment with literals in place of constant indexes"""
+    k = rng.randrange(10) if d > 0 else rng.randrange(2)
+    sub = lambda: gen_cexpr(rng, d - 1, nloc)
+    if k == 0: return ["lit", rng.choice(XLITS)]
+    if k == 1: return ["l", str(rng.randrange(nloc))]
+    if k in (2, 3, 4): return ["bin", rng.choice(list(BIN)), sub(), sub()]
+    if k == 5: return [rng.choice(["eq", "ne"]), sub(), sub()]
+    if k == 6: return ["un", rng.choice(["sub", "not"]), sub()]
+    if k == 7: return ["and", sub(), sub()]
+    if k == 8: return ["or", sub(), sub()]
+    return ["cond", sub(), sub(), sub()]
+
+def render_cexpr(e, names):
+    k = e[0]
+    if k == "lit": return "(%d)" % e[1] if e[1] < 0 else str(e[1])
+    if k == "l": return names[int(e[1])]
+    if k == "bin": return "(%s %s %s)" % (render_cexpr(e[2], names), BIN[e[1]], render_cexpr(e[3], names))
+    if k == "eq": return "(%s == %s)" % (render_cexpr(e[1], names), render_cexpr(e[2], names))
+    if k == "ne": return "(%s != %s)" % (render_cexpr(e[1], names), render_cexpr(e[2], names))
+    if k == "un": return "(%s%s)" % ("-" if e[1] == "sub" else "!", render_cexpr(e[2], names))
+    if k == "and": return "(%s && %s)" % (render_cexpr(e[1], names), render_cexpr(e[2], names))
+    if k == "or": return "(%s || %s)" % (render_cexpr(e[1], names), render_cexpr(e[2], names))
+    return "(%s ? %s : %s)" % (render_cexpr(e[1], names), render_cexpr(e[2], names), render_cexpr(e[3], names))
+
+def index_consts(e, consts):
+    if e[0] == "lit": return ["k", str(consts.index(e[1]))]
+    return [e[0]] + [index_consts(x, consts) if isinstance(x, list) else x for x in e[1:]]
+
+def expr_compiler_cases(rng, tier, fails, dis, stats):
+    """the expression compiler model (ExprComp) against the real compiler: same instruction listing, and
+    real VM value = machine model value = source-level value"""
+    n = 600 if tier == "quick" else 20000
+    names = ["a", "b", "c"]
+    argpool = [["i", "0"], ["i", "1"], ["i", "-3"], ["i", "7"], ["b", "1"], ["b", "0"], ["n"], ["i", str(2**62)], ["s", "x6162"], ["f", "3ff8000000000000"]]
+    cases = []
+    for i in range(n):
+        e = gen_cexpr(rng, rng.choice([1, 2, 3, 4]), 3)
+        args = [rng.choice(argpool) for _ in range(3)]
+        src = "param (a, b, c)\nreturn %s\n" % render_cexpr(e, names)
+        c = mk_case("x%d" % i, "exprcomp", hexs(src), ["args"] + args)
+        c["e"], c["argv"], c["src"] = e, args, src
+        cases.append(c)
+    impl, _ = vlib.run_impl([c["line"] for c in cases], timeout=1200)
+    mcases = []
+    for c in cases:
+        r = impl.get(c["id"])
+        if r is None or not r.startswith("(exprcomp"):
+            dis.append((c["src"], "harness answer %s" % str(r)[:200])); continue
+        sx = vlib.parse_sexp(r)
+        consts = [int(v[1]) for v in sx[2][1:] if v[0] == "i"]
+        try: e2 = index_consts(c["e"], consts)
+        except ValueError:
+            dis.append((c["src"], "a literal of the expression is missing from the constant pool %s" % consts)); continue
+        c["impl_code"], c["impl_res"] = vlib.sexp_str(sx[1][:-1]), vlib.sexp_str(sx[3])   # without the final RETURN
+        m = mk_case(c["id"], "exprcomp", e2, sx[2][1:], c["argv"]); mcases.append(m)
+    model, _ = vlib.run_model([m["line"] for m in mcases], timeout=1200)
+    for c in cases:
+        m = model.get(c["id"])
+        if m is None or "impl_code" not in c: continue
+        if not m.startswith("(exprcomp"):
+            dis.append((c["src"], "model answer %s" % m[:200])); continue
+        sx = vlib.parse_sexp(m)
+        code, spec, mach = vlib.sexp_str(sx[1]), vlib.sexp_str(sx[2]), vlib.sexp_str(sx[3])
+        stats["expr_cases"] = stats.get("expr_cases", 0) + 1
+        if "inconclusive" in spec or "inconclusive" in mach: stats["expr_inconclusive"] = stats.get("expr_inconclusive", 0) + 1; continue
+        if mach != spec:
+            dis.append((c["src"], "the machine model run on the model's code gives %s, the source-level value is %s (contradicts theorem compile_correct: extraction or driver fault)" % (mach, spec)))
+        if c["impl_res"] != spec:
+            fails.append((c["src"], "compiled execution gives %s, the source-level evaluation of the expression gives %s (args %s)" % (c["impl_res"][:300], spec[:300], vlib.sexp_str(c["argv"]))))
+        elif code != c["impl_code"]:
+            dis.append((c["src"], "the compiler emits %s, the compiler model %s" % (c["impl_code"][:600], code[:600])))
+        else: stats["expr_code_identical"] = stats.get("expr_code_identical", 0) + 1
+
 def run(rep, br, proofs, rng, tier):
     n = 1500 if tier == "quick" else 40000
     cases, progs = [], {}
@@ -61,6 +139,7 @@ def run(rep, br, proofs, rng, tier):
                 fails.append((src, "%s run returns %s, the documented semantics gives %s" % ("optimised" if mode == "o" else "unoptimised", r[:400], m[:400])))
             elif mode == "n":
                 stats["agree_value" if m.startswith("(ok") else "agree_error"] += 1
+    expr_compiler_cases(rng, tier, fails, dis, stats)
     if stats["compile_error"] > n // 20 or stats["fuel"] > n // 5:
         dis.append(("", "generator health: %d programs do not compile, %d exceed the interpreter's fuel" % (stats["compile_error"], stats["fuel"])))
     for src, why in fails[:10]:
@@ -70,7 +149,7 @@ def run(rep, br, proofs, rng, tier):
             rep.violation({"property": "C02", "kind": "correspondence", "why": why, "source": src}, found=False)
     rep.coverage.update({
         "evaluations": len(cases), "distinct_nontrivial": stats["agree_value"] + stats["agree_error"],
-        "rule": "type-directed generated programs over the fragment (logging calls make evaluation order observable; closures over per-iteration and loop variables; counter factories; recursion in tail position, out of it and as a discarded last statement; variadic and spread calls with every count; destructuring with fewer and more elements; const groups with iota; shadowing blocks; index assignment with side-effecting index; break/continue/return in nested loops and functions) run compiled with and without the optimizer and on the Coq interpreter; values compared structurally; non-trivial = programs on which unoptimised, optimised and interpreter agree",
+        "rule": "type-directed generated programs over the fragment (logging calls make evaluation order observable; closures over per-iteration and loop variables; counter factories; recursion in tail position, out of it and as a discarded last statement; variadic and spread calls with every count; destructuring with fewer and more elements; const groups with iota; shadowing blocks; index assignment with side-effecting index; break/continue/return in nested loops and functions) run compiled with and without the optimizer and on the Coq interpreter; values compared structurally; non-trivial = programs on which unoptimised, optimised and interpreter agree; expressions over constants, parameters, every binary and unary operator, == / !=, && / ||, ?: with int / bool / undefined / string / float arguments: the real compiler's instruction listing vs the Coq compiler model (byte positions, operands, jump targets), real VM value vs machine model vs source-level evaluation",
         "samples": [progs["g0"][1][:400], progs["g1"][1][:400]],
         "stats": stats, "statement_kinds": kinds, "disagreements": len(dis), "oracle_failures": len(fails)})
 
